@@ -1,0 +1,86 @@
+//go:build verif
+
+// Contracts for the gvc verifier (see /verif/DESIGN.md). Comment-only file: it adds no code.
+package revocation
+
+//@ pred evbytes(ev) := bcat(bcat(be64(ev.Index), bytes(ev.ParentHash)), i2osp(abs(val(ev.E))))
+//@ pred hasheq(ev, h) := mhok(bytes(h)) && mhcode(bytes(h)) == 18 && bytes(h) == mhsum(evbytes(ev), 18)
+//@ pred signedok(k, m) := cborok(m) && asn1ok(cborsig(m)) && asn1rest(cborsig(m)) == 0 && ecdsaok(k, sha256(cbormsg(m)), asn1R(cborsig(m)), asn1S(cborsig(m)))
+//@ pred chained(events, acc) := len(events) > 0 ==> (hasheq(events[len(events)-1], acc.EventHash) && (forall i in 1..len(events) :: hasheq(events[i-1], events[i].ParentHash)) && (forall i in 0..len(events) :: events[i].Index == wrapU64(events[0].Index + i)))
+//@ pred evnonnil(events) := forall i in 0..len(events) :: events[i] != nil && events[i].E != nil
+//@ axiom sha256supported(): mhsupported(18)
+
+//@ func (Hash).Equal
+//@   property C10
+//@   ensures bytes: result <==> (len(hash) == len(other) && forall j in 0..len(hash) :: hash[j] == other[j])
+//@   ensures abstract: result ==> bytes(hash) == bytes(other)
+//@   modifies nothing
+//@   loop 0 invariant 0 <= $i && $i <= len(hash) && $i <= len(other)
+//@   loop 0 invariant forall j in 0..$i :: hash[j] == other[j]
+//@   mustfail alwaystrue: result
+
+//@ func (Hash).Algorithm
+//@   property C10 C08
+//@   ensures code: err == nil ==> mhok(bytes(hash)) && result0 == mhcode(bytes(hash)) && result0 == 18
+//@   modifies nothing
+//@   mustfail canary: err != nil
+
+//@ func (*Event).hashBytes
+//@   property C10
+//@   requires event != nil && event.E != nil
+//@   assume Parameters.AttributeSize == 195
+//@   ensures content: bytes(result) == evbytes(event)
+//@   ensures fresh: fresh(result)
+//@   modifies nothing
+
+//@ func (*Event).hashUsingAlg
+//@   property C10
+//@   requires event != nil && event.E != nil
+//@   ensures value: err == nil ==> code == 18 && bytes(result0) == mhsum(evbytes(event), 18)
+//@   ensures whitelist: code != 18 ==> err != nil
+//@   ensures ok: code == 18 && mhsupported(18) ==> err == nil
+//@   modifies nothing
+//@   mustfail canary: err != nil
+
+//@ func (*Event).hash
+//@   property C10
+//@   uses sha256supported
+//@   requires event != nil && event.E != nil
+//@   ensures value: bytes(result) == mhsum(evbytes(event), 18)
+//@   modifies nothing
+
+//@ func (*Event).hashEquals
+//@   property C10
+//@   requires event != nil && event.E != nil
+//@   ensures eq: err == nil ==> hasheq(event, h)
+//@   modifies nothing
+//@   mustfail canary: err != nil
+
+//@ func (*EventList).Verify
+//@   property C10 C09
+//@   requires el != nil && acc != nil && evnonnil(el.Events)
+//@   ensures checked: err == nil && !old(el.verified) ==> chained(el.Events, acc)
+//@   modifies el.verified, el.validationErr
+//@   loop 0 invariant 0 <= $i && $i <= len(events) && len(events) > 0
+//@   loop 0 invariant forall j in 1..$i :: hasheq(events[j-1], events[j].ParentHash)
+//@   loop 0 invariant forall j in 0..$i :: events[j].Index == wrapU64(events[0].Index + j)
+//@   mustfail canary: err != nil
+
+//@ func (*SignedAccumulator).UnmarshalVerify
+//@   property C10 C08 C11
+//@   requires s != nil && pk != nil && pk.ECDSA != nil
+//@   ensures cached: old(s.Accumulator) != nil ==> err == nil && result0 == old(s.Accumulator)
+//@   ensures auth: old(s.Accumulator) == nil && err == nil ==> pk.Counter == s.PKCounter && signedok(ref(pk.ECDSA), bytes(s.Data)) && fresh(result0)
+//@   ensures set: err == nil ==> result0 != nil && s.Accumulator == result0
+//@   ensures fail: err != nil ==> result0 == nil && s.Accumulator == old(s.Accumulator)
+//@   modifies s.Accumulator
+//@   mustfail canary: err != nil
+
+//@ func (*Update).Verify
+//@   property C10 C09
+//@   requires update != nil && pk != nil && pk.ECDSA != nil && update.SignedAccumulator != nil && evnonnil(update.Events)
+//@   ensures chain: err == nil ==> result0 != nil && result0 == update.SignedAccumulator.Accumulator && chained(update.Events, result0)
+//@   ensures auth: err == nil && old(update.SignedAccumulator.Accumulator) == nil ==> pk.Counter == update.SignedAccumulator.PKCounter && signedok(ref(pk.ECDSA), bytes(update.SignedAccumulator.Data))
+//@   ensures cached: old(update.SignedAccumulator.Accumulator) != nil ==> result0 == old(update.SignedAccumulator.Accumulator)
+//@   modifies update.SignedAccumulator.Accumulator
+//@   mustfail canary: err != nil
